@@ -2,8 +2,9 @@
 (* C36: Base64 (RFC 4648 section 4) over byte sequences Seq(0..255), and the Basic credentials split (RFC 7617).
    P-layer:  Encode, the strict decoder (Shape/Value/Canonical), Malformed, SplitBasic, DecodeLength (the output size
              base64_decode_update promises).  All definitions are recursion-free so that TLC evaluates them on 8 KiB inputs.
-   I-layer:  Nettle(e), the decoding automaton of lib/base64.cc / libnettle as it is today (white space skipped,
-             non-zero padding bits refused). *)
+   I-layer:  Automaton(impl, e), the decoding automaton of the two implementations as they are today (white space skipped,
+             non-zero padding bits refused): "own" = lib/base64.cc, at most two '='; "used" = the decoder the build links
+             (libnettle), which takes a third '=' when the buffered bits are zero ("A===" decodes to nothing). *)
 EXTENDS Naturals, Sequences, SequencesExt
 
 PAD == 61
@@ -86,16 +87,21 @@ CredPart(h) == SubSeq(h, CredStart(h), CredEnd(h))
 \* state: bits buffered (0,2,4,6), their value, padding seen, output, failed
 NInit == [bits |-> 0, low |-> 0, pad |-> 0, out |-> <<>>, bad |-> FALSE]
 Pow2(b) == CASE b = 0 -> 1 [] b = 2 -> 4 [] b = 4 -> 16 [] b = 6 -> 64 [] b = 8 -> 256 [] b = 10 -> 1024 [] b = 12 -> 4096
-NStep(st, c) ==
+\* maxPads: padding characters the implementation takes before it refuses the next one
+MaxPads(impl) == IF impl = "own" THEN 2 ELSE 3
+NStep(maxPads, st, c) ==
   IF st.bad THEN st
   ELSE IF IsSpace(c) THEN st
   ELSE IF c = PAD THEN
-     IF st.bits = 0 \/ st.pad > 2 \/ st.low # 0 THEN [st EXCEPT !.bad = TRUE]
+     IF st.bits = 0 \/ st.pad >= maxPads \/ st.low # 0 THEN [st EXCEPT !.bad = TRUE]
      ELSE [st EXCEPT !.pad = @ + 1, !.bits = @ - 2]
   ELSE IF Sextet(c) = 64 \/ st.pad > 0 THEN [st EXCEPT !.bad = TRUE]
   ELSE LET w == st.low * 64 + Sextet(c)
            b == st.bits + 6
        IN IF b >= 8 THEN [st EXCEPT !.bits = b - 8, !.low = w % Pow2(b - 8), !.out = Append(@, w \div Pow2(b - 8))]
           ELSE [st EXCEPT !.bits = b, !.low = w]
-Nettle(e) == LET st == FoldLeft(NStep, NInit, e) IN [upd |-> ~st.bad, ok |-> ~st.bad /\ st.bits = 0, out |-> st.out]
+Automaton(impl, e) == LET st == FoldLeft(LAMBDA s, c : NStep(MaxPads(impl), s, c), NInit, e)
+                      IN [upd |-> ~st.bad, ok |-> ~st.bad /\ st.bits = 0, out |-> st.out]
+Nettle(e) == Automaton("used", e)
+Own(e) == Automaton("own", e)
 ====
